@@ -7,6 +7,7 @@
 //   newvbk T mindiff noret N T future ks gid gtime gbits
 //   now t                                           -> setMockTime
 //   acc T id parent time bits pow ks1 ks2           -> <code> tip=<id> work=<hex|-> h=<height|->
+//   load T id parent time bits                      -> loadBlockForward(fast): ok work=<hex> h=<height>
 //   dup T id | inv T id | probe T parent time | ks T parent ks1 ks2 | chain T id
 #include <map>
 #include <memory>
@@ -124,6 +125,21 @@ struct TreeT {
     r += " h=" + (idx ? vh::hexnum_s(idx->getHeight()) : std::string("-"));
     return r;
   }
+  // loadBlockForward(fast_load = true): no PoW / contextual checks, chain work recovered
+  std::string load(uint64_t id, const Block& b, uint64_t parent) {
+    auto* pi = index_of(parent);
+    if (!pi) return "fail";
+    typename tree_t::stored_index_t si;
+    si.height = pi->getHeight() + 1;
+    si.header = std::make_shared<Block>(b);
+    si.status = BLOCK_VALID_TREE;
+    remember(id, b);
+    ValidationState st;
+    bool ok = tree->loadBlockForward(si, true, st);
+    auto* idx = tree->getBlockIndex(b.getHash());
+    return std::string(ok ? "ok" : "fail") + " work=" + (idx ? num(idx->chainWork) : std::string("-")) +
+           " h=" + (idx ? vh::hexnum_s(idx->getHeight()) : std::string("-"));
+  }
   std::string inv(uint64_t id) {
     auto* idx = index_of(id);
     if (!idx) return "skip";
@@ -149,7 +165,7 @@ using BtcT = TreeT<BtcBlock, BtcP, BtcChainParams>;
 using VbkT = TreeT<VbkBlock, VbkP, VbkChainParams>;
 static std::map<std::string, std::unique_ptr<BtcT>> btcs;
 static std::map<std::string, std::unique_ptr<VbkT>> vbks;
-static const uint64_t BTC_CAP = 1ull << 22, VBK_CAP = 1ull << 13;
+static const uint64_t BTC_CAP = 1ull << 22, VBK_CAP = 1ull << 9;
 
 static uint256 merkle32(uint64_t id) {
   std::vector<uint8_t> v(32, 0);
@@ -247,8 +263,13 @@ int main() {
       t->init();
       uint64_t gid = H(a[7]);
       BtcBlock g = make_btc(*t, gid, 0, (uint32_t)H(a[8]), (uint32_t)H(a[9]));
-      if (!t->mine(g, true, BTC_CAP)) return "MINE-FAIL";
-      t->tree->bootstrapWithGenesis(g);
+      // the bootstrap block only has to carry SOME valid proof of work: lift the limit while it is mined and inserted
+      uint256 keep = t->params.limit;
+      t->params.limit = uint256(std::vector<uint8_t>(32, 0xff));
+      bool mined = t->mine(g, true, BTC_CAP);
+      if (mined) t->tree->bootstrapWithGenesis(g);
+      t->params.limit = keep;
+      if (!mined) return "MINE-FAIL";
       t->remember(gid, g);
       btcs[a[0]] = std::move(t);
       return "ok";
@@ -264,8 +285,12 @@ int main() {
       t->init();
       uint64_t gid = H(a[7]);
       VbkBlock g = make_vbk(*t, gid, 0, (uint32_t)H(a[8]), (uint32_t)H(a[9]), 0, 0, 0);
-      if (!t->mine(g, true, VBK_CAP)) return "MINE-FAIL";
-      t->tree->bootstrapWithGenesis(g);
+      uint256 keep = t->params.mindiff;
+      t->params.mindiff = uint256();
+      bool mined = t->mine(g, true, VBK_CAP);
+      if (mined) t->tree->bootstrapWithGenesis(g);
+      t->params.mindiff = keep;
+      if (!mined) return "MINE-FAIL";
       t->remember(gid, g);
       vbks[a[0]] = std::move(t);
       return "ok";
@@ -281,16 +306,20 @@ int main() {
       if (isb) {
         BtcBlock b = make_btc(*bt->second, id, parent, time, bits);
         if (!bt->second->mine(b, pow, BTC_CAP)) return "MINE-FAIL";
-        std::string r = bt->second->submit(id, b);
         bt->second->remember(id, b);
-        return r;
+        return bt->second->submit(id, b);
       }
       int32_t hdelta = a.size() > 8 ? (int32_t)vh::parse_hex64s(a[8]) : 0;
       VbkBlock b = make_vbk(*vt->second, id, parent, time, bits, H(a[6]), H(a[7]), hdelta);
       if (!vt->second->mine(b, pow, VBK_CAP)) return "MINE-FAIL";
-      std::string r = vt->second->submit(id, b);
       vt->second->remember(id, b);
-      return r;
+      return vt->second->submit(id, b);
+    }
+    if (op == "load") {
+      uint64_t id = H(a[1]), parent = H(a[2]);
+      uint32_t time = (uint32_t)H(a[3]), bits = (uint32_t)H(a[4]);
+      if (isb) return bt->second->load(id, make_btc(*bt->second, id, parent, time, bits), parent);
+      return vt->second->load(id, make_vbk(*vt->second, id, parent, time, bits, 0, 0, 0), parent);
     }
     if (op == "dup") {
       uint64_t id = H(a[1]);
